@@ -4,6 +4,8 @@ import (
 	"bytes"
 	"fmt"
 	"io"
+	"sync"
+	"time"
 
 	lz4 "github.com/pierrec/lz4/v4"
 
@@ -386,9 +388,42 @@ type readResult struct {
 	calls int
 }
 
-var readBufs = map[int][]byte{}
+// read buffers are checked out of a cache and returned on normal completion only, so a call
+// that the watchdog gave up on never shares a buffer with later calls
+var (
+	bufMu    sync.Mutex
+	bufCache = map[int][][]byte{}
+)
 
-func readBack(src io.Reader, p readPattern, limit int) (res readResult) {
+func getBuf(sz int) []byte {
+	bufMu.Lock()
+	defer bufMu.Unlock()
+	if l := bufCache[sz]; len(l) > 0 {
+		b := l[len(l)-1]
+		bufCache[sz] = l[:len(l)-1]
+		return b
+	}
+	return make([]byte, sz)
+}
+
+func putBuf(b []byte) {
+	bufMu.Lock()
+	bufCache[len(b)] = append(bufCache[len(b)], b)
+	bufMu.Unlock()
+}
+
+func readBack(src io.Reader, p readPattern, limit int) readResult {
+	ch := make(chan readResult, 1)
+	go func() { ch <- readBack1(src, p, limit) }()
+	select {
+	case r := <-ch:
+		return r
+	case <-time.After(watchdog):
+		return readResult{err: errBlocked}
+	}
+}
+
+func readBack1(src io.Reader, p readPattern, limit int) (res readResult) {
 	defer func() {
 		if r := recover(); r != nil {
 			res.panic = fmt.Sprint(r)
@@ -406,12 +441,14 @@ func readBack(src io.Reader, p readPattern, limit int) (res readResult) {
 		return
 	}
 	var out []byte
+	var bufs [2][]byte
 	for i := 0; ; i++ {
 		sz := p.Sizes[i%2]
-		buf := readBufs[sz]
+		buf := bufs[i%2]
 		if buf == nil {
-			buf = make([]byte, sz)
-			readBufs[sz] = buf
+			buf = getBuf(sz)
+			bufs[i%2] = buf
+			defer putBuf(buf)
 		}
 		n, err := r.Read(buf)
 		res.calls++
